@@ -36,6 +36,9 @@ type features struct {
 	// memBaseWrittenRecently: a load/store whose base register was written
 	// within the 10 executed instructions before it
 	memBaseWrittenRecently bool
+	// wawBeforeBranch: a register is written twice within 6 executed
+	// instructions and a conditional branch follows within 8
+	wawBeforeBranch bool
 	// ringOverflow: one register is written more than 10 times (the rename
 	// ring length) without a conditional branch (commit point) in between
 	ringOverflow bool
@@ -251,6 +254,13 @@ func featuresOf(c *core.Case) *features {
 		if !ld.Op.IsLoad() || ld.Rd == isa.Zero {
 			continue
 		}
+		if ld.Rs1 != isa.Zero {
+			for k := i + 1; k < len(ref.Trace) && k <= i+8; k++ {
+				if rd, w := p.Insts[ref.Trace[k].Idx].Writes(); w && rd == ld.Rs1 {
+					f.warAfterLoadUse = true // the load re-reads its base register while it waits for its line
+				}
+			}
+		}
 		for j := i + 1; j < len(ref.Trace) && j <= i+6; j++ {
 			cons := p.Insts[ref.Trace[j].Idx]
 			uses := false
@@ -270,6 +280,23 @@ func featuresOf(c *core.Case) *features {
 					if rd, w := p.Insts[ref.Trace[k].Idx].Writes(); w && rd == r {
 						f.warAfterLoadUse = true
 					}
+				}
+			}
+		}
+	}
+	for i, st := range ref.Trace {
+		rd, w := p.Insts[st.Idx].Writes()
+		if !w || rd == isa.Zero {
+			continue
+		}
+		for j := i + 1; j < len(ref.Trace) && j <= i+6; j++ {
+			rd2, w2 := p.Insts[ref.Trace[j].Idx].Writes()
+			if !w2 || rd2 != rd {
+				continue
+			}
+			for k := j + 1; k < len(ref.Trace) && k <= j+8; k++ {
+				if p.Insts[ref.Trace[k].Idx].Op.IsCondBranch() {
+					f.wawBeforeBranch = true
 				}
 			}
 		}
